@@ -4,8 +4,8 @@
 use crate::rng::Rng;
 use crate::world::World;
 
-pub const KINDS: [&str; 14] = [
-    "filled-block", "torn-in-literal", "torn-write", "lost-write", "write-replay", "interleaved-versions", "bit-flip", "byte-substitution", "crlf", "lone-cr", "nul-bytes", "bom", "size-multiplier", "invalid-utf8",
+pub const KINDS: [&str; 15] = [
+    "odd-include-name", "filled-block", "torn-in-literal", "torn-write", "lost-write", "write-replay", "interleaved-versions", "bit-flip", "byte-substitution", "crlf", "lone-cr", "nul-bytes", "bom", "size-multiplier", "invalid-utf8",
 ];
 
 /// Apply one content fault of `kind` to `path`. Returns false if it did not change anything.
@@ -145,6 +145,25 @@ pub fn apply(world: &mut World, path: &str, kind: &str, r: &mut Rng, allow_binar
             let mut b = vec![0xEF, 0xBB, 0xBF];
             b.extend_from_slice(&bytes);
             bytes = b;
+        }
+        "odd-include-name" => {
+            // the text between the quotes of an include directive is input like any other: names
+            // that are no path, no URL reference, or that mean something else to a URL parser
+            const NAMES: [&str; 16] = ["//[", "http://a b/", "//a:b/", "", ".", "..", "/", "a#b.s", "c%20d.s", "%zz", "file:///etc/passwd", "\\\\srv\\x.s", "x.s?y=1", "~/x.s", "a\tb.s", "untitled:Untitled-1"];
+            let lines: Vec<&str> = text.split('\n').collect();
+            let dirs: Vec<usize> = lines.iter().enumerate().filter(|(_, l)| crate::world::parse_include(l).is_some()).map(|(i, _)| i).collect();
+            let name = *r.pick(&NAMES);
+            let new_line = format!(".include \"{name}\"");
+            let mut out: Vec<String> = lines.iter().map(|l| (*l).to_string()).collect();
+            if dirs.is_empty() {
+                // no directive to spoil: add one
+                let at = r.usize(out.len() + 1);
+                out.insert(at, new_line);
+            } else {
+                let at = *r.pick(&dirs);
+                out[at] = new_line;
+            }
+            bytes = out.join("\n").into_bytes();
         }
         "invalid-utf8" => {
             if bytes.is_empty() {
